@@ -63,6 +63,7 @@ function e.ok(frame) return "ok" .. (frame.args[1] or "") end
 function e.raise(frame) error("boom") end
 function e.slow(frame) while true do end end
 function e.guarded(frame) local ok = pcall(error, "boom") return ok and "bad" or "caught" end
+function e.fname(frame) return "run" end
 function e.sum(frame) local s = 0 for i = 1, tonumber(frame.args[1]) do s = s + i end return "sum" .. s end
 return e
 """
@@ -76,7 +77,20 @@ FOLLOW = {"benign": "{{#invoke:c07aux|ok|z}}", "raising": "{{#invoke:c07aux|rais
           "python_oserror": "{{#invoke:" + "x" * 5000 + "|ok}}", "python_unicode": "{{#invoke:c07aux\ud800|ok}}"}
 
 
+# how the non-terminating function is invoked: plainly, or with its function name / an argument name computed by another
+# (benign) invocation, which runs and finishes before the outer call starts
+INVOCATION = {
+    "function": "a{{#invoke:c07prog|run}}b",
+    "toplevel": "a{{#invoke:c07prog|run}}b",
+    "function_name_from_invoke": "a{{#invoke:c07prog|{{#invoke:c07aux|fname}}}}b",
+    "function_argname_from_invoke": "a{{#invoke:c07prog|run|{{#invoke:c07aux|ok|k}}=v}}b",
+    "function_inside_argument_of_invoke": "a{{#invoke:c07aux|ok|{{#invoke:c07prog|run}}}}b",
+}
+
+
 def module_text(body, wrapper, position):
+    if position.startswith("function_"):
+        position = "function"
     w = WRAPPERS[wrapper]
     code = w % ((BODIES[body],) * w.count("%s"))
     if position == "function":
@@ -114,7 +128,7 @@ def work(payload, skip, report):
     before = list(ctx.expand_stack)
     t0 = time.time()
     try:
-        res = ctx.expand("a{{#invoke:c07prog|run}}b", timeout=LIMIT)
+        res = ctx.expand(INVOCATION[position], timeout=LIMIT)
     except Exception as e:
         res = "EXC " + type(e).__name__ + ": " + str(e)[:100]
     dt = time.time() - t0
@@ -128,7 +142,7 @@ def work(payload, skip, report):
         ctx2.start_page("Tt")
         t1 = time.time()
         try:
-            ctx2.expand("a{{#invoke:c07prog|run}}b", timeout=LIMIT)
+            ctx2.expand(INVOCATION[position], timeout=LIMIT)
         except Exception:
             pass
         dt = min(dt, time.time() - t1)
@@ -179,6 +193,9 @@ def main(run):
                   "nested_in_template_arg"):
             chunks.append((b, "none", "function", ("guarded", "timing_out", "benign")))
             chunks.append((b, "pcall", "function", ("timing_out", "guarded")))
+        for pos in ("function_name_from_invoke", "function_argname_from_invoke", "function_inside_argument_of_invoke"):
+            chunks.append(("while", "none", pos, ("benign",)))
+            chunks.append(("while", "pcall", pos, ("benign_long",)))
         chunks.append(("while", "none", "function", ("python_oserror", "timing_out", "benign")))
         chunks.append(("while", "pcall", "function", ("python_unicode", "timing_out", "guarded")))
         chunks.append(("nested_inner_loop", "none", "function", ("python_oserror", "timing_out")))
@@ -192,6 +209,10 @@ def main(run):
         for h in hist:
             chunks.append(("while", "none", "function", h))
             chunks.append(("while", "pcall", "function", h))
+        for pos in ("function_name_from_invoke", "function_argname_from_invoke", "function_inside_argument_of_invoke"):
+            for b, w in itertools.product(("while", "nested_inner_loop", "preprocess_invoke"), ("none", "pcall", "xpcall")):
+                if w in WRAPPERS and b in BODIES:
+                    chunks.append((b, w, pos, ("benign", "timing_out")))
     for cid, acc, hung in run_chunks(work, chunks, nproc=run.nproc, case_timeout=12):
         run.acc.merge(acc)
     cov = {
